@@ -153,6 +153,12 @@ def peek(x):
     return x
 
 
+def blocks_of(cfg, stage):
+    """[Column, Tanh, Row] blocks of a pipeline stage: `stage_blocks` (uneven split of the layers) or `blocks` everywhere"""
+    sb = getattr(cfg, 'stage_blocks', None)
+    return sb[stage] if sb else cfg.blocks
+
+
 def damping_arg(v):
     if isinstance(v, list):
         tbl = [float(x) for x in v]
@@ -167,7 +173,7 @@ def full_layers(cfg, stage):
     if getattr(cfg, 'empty_stage', None) == stage:
         return layers              # a pipeline stage without any layer K-FAC registers (embedding / norm only)
     d = cfg.din
-    for _ in range(cfg.blocks):
+    for _ in range(blocks_of(cfg, stage)):
         wc = torch.randn(cfg.hidden, d, generator=g, dtype=DT) / 2
         bc = torch.randn(cfg.hidden, generator=g, dtype=DT) / 2 if cfg.bias_col else None
         wr = torch.randn(cfg.din, cfg.hidden, generator=g, dtype=DT) / 2
@@ -227,7 +233,7 @@ def run_real(cfg, sched_seed=0):
                 mods.append(torch.nn.Tanh())
         if not mods:
             mods.append(torch.nn.Tanh())        # the stage still holds (unregistered) modules
-        model = PipelineModule(layers=mods, topology=topo, layer_offset=co.pipe * 3 * cfg.blocks)
+        model = PipelineModule(layers=mods, topology=topo, layer_offset=sum(3 * blocks_of(cfg, q) for q in range(co.pipe)))
         S_ = float(getattr(cfg, 'loss_scale', 1.0) or 1.0) if cfg.kl is None else 1.0
         import warnings
 
